@@ -184,7 +184,8 @@ class C17(Property):
       if kind == "list" and W.chance("wrap", 1, 3):
         # the same finite samples handed over as another kind of iterable
         spec["wrap"] = W.pick("wrapkind", ["stream", "hub1", "tuple", "iter",
-                                           "hub2", "sequence"])
+                                           "hub2", "sequence", "deque",
+                                           "array", "userlist", "dictkeys"])
       if spec["use_global"]:
         spec["chunk_size"] = gchunk
       specs.append(spec)
@@ -524,6 +525,17 @@ class C17(Property):
           return iter(vals)
         if wrap == "sequence":      # iterable through __getitem__ only
           return _GetItemOnly(vals)
+        if wrap == "deque":         # a Sequence without slicing
+          import collections
+          return collections.deque(vals)
+        if wrap == "array":
+          import array
+          return array.array("d" if spec["dfmt"] == "f" else "l", vals)
+        if wrap == "userlist":
+          import collections
+          return collections.UserList(vals)
+        if wrap == "dictkeys":      # a sized iterable that is no Sequence
+          return dict((k, v) for k, v in enumerate(vals)).values()
         return vals
       if spec["kind"] == "gen":
         vals = audio_values(p, spec)
